@@ -11,9 +11,10 @@ import time
 ROOT = os.path.dirname(os.path.dirname(os.path.abspath(__file__)))
 SIM = os.path.join(ROOT, "sim")
 REPO = "/repo"
-REPLAYS = os.path.join(ROOT, "replays")
-LOGS = os.path.join(ROOT, "logs")
-EVIDENCE = os.path.join(ROOT, "evidence")
+# the self-test redirects these so that runs against mutated scratch copies never touch the evidence
+REPLAYS = os.environ.get("VERIF_REPLAY_DIR") or os.path.join(ROOT, "replays")
+LOGS = os.environ.get("VERIF_LOG_DIR") or os.path.join(ROOT, "logs")
+EVIDENCE = os.environ.get("VERIF_EVIDENCE_DIR") or os.path.join(ROOT, "evidence")
 KNOWN = os.path.join(ROOT, "known_findings.json")
 
 SCHED_FLAGS = "--cfg graaf_verif --cfg graaf_verif_shuttle"
@@ -239,7 +240,7 @@ def triage(binary, pid, violations, seed):
     harness_error = False
     env = base_env()
     for n, (sig, vs) in enumerate(sorted(by_sig.items())):
-        first = vs[0]
+        first = next((v for v in vs if v.get("replay")), vs[0])
         replay = first["replay"]
         if n < 8 and replay and os.path.exists(replay):
             minp = os.path.join(REPLAYS, "%s-seed%d-%s-min.json" % (pid, seed, sig_id(sig)))
@@ -436,9 +437,36 @@ def report(pid, new, known_hits):
         log("  detail: %s" % v["detail"])
 
 
+# properties whose threaded operations are additionally judged under Miri (data races on the
+# raw-pointer-shared vectors and Relaxed-only anomalies are invisible to shuttle)
+MIRI_JUDGED = {"C15": ("thorough",), "C17": ("quick", "thorough")}
+
+
 def run_sched_property(pid, tier):
     t0 = time.time()
     r = sched_phase(pid, tier)
+    if tier in MIRI_JUDGED.get(pid, ()):
+        import memdriver
+        stats, viol = memdriver.judge_lane(pid, tier, r["seed"], os.path.join(LOGS, "%s-%s-miri" % (pid, tier)), jobs())
+        r["coverage"]["miri_lane"] = stats
+        r["coverage"]["evaluations"] += stats["judged_case_executions"]
+        known = [k for k in load_known() if k.get("property") == pid and k.get("status") == "known"]
+        by_sig = {}
+        for v in viol:
+            if v["case"] is None:
+                sig, path = "%s %s miri" % (v["class"], v["op"]), None
+            else:
+                path, sig = memdriver.write_judge_replay(pid, v)
+            e = by_sig.setdefault(sig, {"signature": sig, "count": 0, "replay": path, "detail": v["detail"][:600]})
+            e["count"] += 1
+        for sig, e in by_sig.items():
+            hit = next((k for k in known if k.get("signature") == sig), None)
+            if hit:
+                e["what"] = hit.get("what", "")
+                r["known"].append(e)
+            else:
+                r["new"].append(e)
+        r["coverage"]["new_violation_signatures"] = [k["signature"] for k in r["new"]]
     wall = time.time() - t0
     write_evidence(pid, tier, r["seed"], "exploration", r["coverage"], ASSUMPTIONS, wall, len(r["new"]))
     report(pid, r["new"], r["known"])
@@ -468,6 +496,9 @@ def cmd_replay(path):
     if rf.get("engine") == "simmem":
         import memdriver
         return memdriver.replay_mem(path, rf)
+    if rf.get("engine") == "simmem-judge":
+        import memdriver
+        return memdriver.replay_judge(path, rf)
     ws = workspace()
     binary = build_sched(ws, quiet=True)
     r = subprocess.run([binary, "replay", path], env=base_env(), stdout=subprocess.PIPE, stderr=subprocess.DEVNULL, text=True)
